@@ -79,3 +79,14 @@ package dns64
 //@   ensures m != nil && m.Rcode == dns.RcodeServerFailure && msgOPT(m) != nil && hasDnssecEDE(msgOPT(m).Option) ==> result
 //@   loop 1 invariant 0 <= rangeidx && rangeidx <= len(opt.Option)
 //@   loop 1 invariant forall j int :: {opt.Option[j]} 0 <= j && j < rangeidx ==> !(dyntype(opt.Option[j], *dns.EDNS0_EDE) && dnssecEDE(as(opt.Option[j], *dns.EDNS0_EDE).InfoCode))
+//@
+//@ # ---- C20: "a synthesised or AAAA-filtered reply never carries AD". The response writer (abstracting tier): whenever
+//@ # the upstream answer had AAAA records removed, the message handed downstream has AD clear — on the pass-through of
+//@ # the surviving records AND on the fallback taken when synthesis produced nothing
+//@ func (*responseWriter).WriteMsg
+//@   abstract
+//@   nosafety all pre
+//@   assert at call (middleware.ResponseWriter).WriteMsg#6: arg1 == lastret("(*middleware/dns64.responseWriter).filterUpstreamAAAA") && (lastret("(*middleware/dns64.responseWriter).filterUpstreamAAAA", 3) > 0 ==> !arg1.AuthenticatedData)
+//@   assert at call (middleware.ResponseWriter).WriteMsg#7: calls("(*middleware/dns64.responseWriter).filterUpstreamAAAA") == 1 && lastret("(*middleware/dns64.responseWriter).filterUpstreamAAAA", 3) > 0 ==> !arg1.AuthenticatedData
+//@   assert at call (middleware.ResponseWriter).WriteMsg#8: arg1 == lastret("(*middleware/dns64.responseWriter).synthesise") && arg1 != nil
+//@   assert at call (*middleware/dns64.responseWriter).synthesise#1: arg1 == m
